@@ -1000,6 +1000,16 @@ pub fn generate(ctx: &Ctx, prop: &str, rng: &mut Rng64, thorough: bool, index: u
         let mut search_may_run = false;
         let mut heavy_running = false;
         for _ in 0..ncmd {
+            // themed sessions keep coming back to "set up a sibling, search it briefly"
+            if let (Some(t), true) = (&theme, rng.chance(300)) {
+                let (l, _) = themed_position_line(rng, t);
+                s.push(UStep::Line(l));
+                s.push(UStep::Line(format!("go depth {}", 1 + rng.below(2))));
+                s.push(UStep::Settle(400_000));
+                search_may_run = false;
+                heavy_running = false;
+                continue;
+            }
             match rng.below(100) {
                 0..=27 => {
                     let (l, _) = if allow_terminal && rng.chance(250) {
